@@ -30,15 +30,23 @@ def sh(cmd, cwd):
 
 def main():
     pid = sys.argv[1]
-    if len(sys.argv) > 2:
-        spec = json.loads(sys.argv[2])
+    dest = "/verif/seeded/%s" % pid
+    if pid == "--dir":
+        # confirm_seeded.py --dir <worktree> <out dir with patch.diff + RUN.json> <name under /verif/seeded> <property>
+        wt, out, name, pid = sys.argv[2:6]
+        spec = json.load(open(os.path.join(out, "RUN.json")))
         DEMOS[pid] = ([tuple(x) for x in spec["files"]], spec["cmd"])
-    wt, out = "/tmp/wt/%s" % pid, "/tmp/wt/%s.out" % pid
+        dest = "/verif/seeded/%s" % name
+    else:
+        if len(sys.argv) > 2:
+            spec = json.loads(sys.argv[2])
+            DEMOS[pid] = ([tuple(x) for x in spec["files"]], spec["cmd"])
+        wt, out = "/tmp/wt/%s" % pid, "/tmp/wt/%s.out" % pid
     files, cmd = DEMOS[pid]
     patch = os.path.join(out, "patch.diff")
     res = {}
     # clean state: only the patch
-    sh("git checkout -- . && git apply %s" % patch, wt)
+    sh("git checkout -- . && git clean -fdq -e target && git apply %s" % patch, wt)
     for _, dst in files:
         if os.path.exists(os.path.join(wt, dst)):
             os.remove(os.path.join(wt, dst))
@@ -56,22 +64,21 @@ def main():
     sh("git apply -R %s" % patch, wt)
     rc2, o2 = sh(cmd + " 2>&1", wt)
     res["demo_without_patch"] = dict(exit=rc2, tail=o2[-300:])
-    sh("git apply %s" % patch, wt)
+    sh("git checkout -- . ; git clean -fdq -e target", wt)
     ok = res["build_with_patch"] == "ok" and passed == 92 and failed == 0 and rc1 != 0 and rc2 == 0
     res["confirmed"] = ok
-    dest = "/verif/seeded/%s" % pid
     os.makedirs(dest, exist_ok=True)
     shutil.copy(patch, os.path.join(dest, "patch.diff"))
     for src, _ in files:
         shutil.copy(os.path.join(out, src), os.path.join(dest, src))
-    for extra in ("RUN.txt", "meta.txt"):
+    for extra in ("RUN.txt", "RUN.json", "meta.txt"):
         if os.path.exists(os.path.join(out, extra)):
             shutil.copy(os.path.join(out, extra), os.path.join(dest, extra))
     meta = dict(property=pid, confirmation=res, demonstration=dict(files=[list(f) for f in files], command=cmd),
                 what_it_needs="see meta.txt (written by the seeding agent)", checks_run="filled by tools/try_patch.py rehearsal, see DESIGN.md section 8")
     with open(os.path.join(dest, "meta.json"), "w") as f:
         json.dump(meta, f, indent=1)
-    print(pid, "CONFIRMED" if ok else "NOT CONFIRMED", json.dumps({k: (v if k != "demo_with_patch" else v["exit"]) for k, v in res.items() if k != "demo_without_patch"})[:400])
+    print(os.path.basename(dest), "CONFIRMED" if ok else "NOT CONFIRMED", json.dumps({k: (v if k != "demo_with_patch" else v["exit"]) for k, v in res.items() if k != "demo_without_patch"})[:400])
 
 
 if __name__ == "__main__":
